@@ -3,6 +3,7 @@
    the theorems below are its laws, for every grammar, text, oracle, configuration and frame.        *)
 From Coq Require Import List NArith.
 From TatsuV Require Import Engine.AssocProof Engine.KeysProof.
+From TatsuV Require Engine.PrefixProof.
 From TatsuV Require Import Base.PyStr Engine.Value Engine.Syntax Engine.Input Engine.Engine Engine.Calls
      Engine.EngineRel Engine.CleanLaws Engine.MemoProof Engine.BoundsProof Engine.FaithfulBounds.
 Import ListNotations.
@@ -141,6 +142,12 @@ Theorem C01_sequence_rule_value_is_dict : forall n es p r fb,
   forall nm, In nm (def_single (Seq es)) \/ In nm (def_list (Seq es)) -> ast_has (fast fb) (safekey unsafe nm) = true.
 Proof. exact (sequence_rule_value_is_dict text re_at isalnum isalpha lower upper ic unsafe rules ec act lineat). Qed.
 
+(* "a list of the elements in order": what a frame has collected is never taken back or reordered - the elements of its cst
+   stay, in order, a prefix of what it holds after any further evaluation (every construct) *)
+Theorem C01_elements_stay_in_order : forall n e f r f',
+  peval' n e f = Ok r f' -> exists rest, PrefixProof.items (cst f') = PrefixProof.items (cst f) ++ rest.
+Proof. exact (PrefixProof.peval_prefix text re_at isalnum isalpha lower upper ic unsafe rules ec act lineat). Qed.
+
 (* left / right joins: the flat result e0 op1 e1 op2 e2 ... of the positive join becomes ONE tree, merged into what the
    sequence had collected so far (nothing collected before the join is lost; the cut flag of the caller is untouched) *)
 Theorem C01_assoc_join : forall n lft e f v f',
@@ -184,6 +191,7 @@ Theorem C01_rule_value_one_element_refuted :
 Proof. exact override_list_is_flattened. Qed.
 Print Assumptions C01_consumed_bounds.
 Print Assumptions C01_assoc_join.
+Print Assumptions C01_elements_stay_in_order.
 Print Assumptions C01_names_are_never_removed.
 Print Assumptions C01_sequence_defines_all_names.
 Print Assumptions C01_sequence_rule_value_is_dict.
